@@ -546,6 +546,35 @@ example :
       ((st.srcs 0).desc.map (·.pos)) = some 2 := by
   decide
 
+/-- a NON-quiescent graceful stop: a second batch is stored and notified, the worker is cancelled before it copies it
+(`wtimeout` = its context ended), `workerDone`, the stop completes with a third batch's notification still queued; after
+the restart the descriptor is back at `Pos = 1`, the pipe partition still holds exactly the first event, and the next
+notification makes a worker copy everything that is stored: nothing twice, nothing lost -/
+example :
+    let st := run cfgNow (init 1 (fun _ => true) (fun _ => prov0) (fun _ => true) false)
+      [.create, .write 0 [evA], .enqueue 0, .notify, .wopen 0, .wcopy 0 9, .wsave 0, .write 0 [evB], .enqueue 0, .notify,
+       .write 0 [evA], .enqueue 0, .shutdown, .wtimeout 0, .wdone 0, .halt, .restart]
+    let st' := run cfgNow st ([.write 0 [evB], .enqueue 0, .notify] ++ copyCycle)
+    (st.dest = [(0, addProv prov0 evA)] ∧ (st.srcs 0).desc.map (fun d => (d.pos, d.start, d.stale)) = some (1, 0, false)) ∧
+    (proj 0 st'.dest = [evA, evB, evA, evB].map (addProv prov0) ∧ proj 0 st'.dest = specProj st' 0) := by
+  decide
+
+/-- the duplicate window: a crash between `Journals.Write` and `saveState` restores `Pos = 0` although the pipe partition
+already holds the batch `[0, 2)` — exactly that batch will be copied again -/
+example :
+    let st := run cfgNow (init 1 (fun _ => true) (fun _ => prov0) (fun _ => true) false)
+      [.create, .write 0 [evA, evB], .enqueue 0, .notify, .wopen 0, .wcopy 0 9]
+    (st.srcs 0).wk = .written 2 ∧ st.dest.length = 2 ∧ ((crashRestart st).srcs 0).desc = none ∧
+      (st.srcs 0).desc.map (·.pos) = some 0 := by
+  decide
+
+/-- the registry through create, restart, delete, restart -/
+example :
+    let st := run cfgNow (init 1 (fun _ => true) (fun _ => prov0) (fun _ => true) false)
+      [.create, .shutdown, .halt, .restart, .delete, .shutdown, .halt, .restart, .write 0 [evA], .enqueue 0, .notify]
+    st.pipe = .deleted ∧ st.reg = false ∧ st.dest = [] := by
+  decide
+
 /-- the hypotheses of `pipe_spec_partial` are met by a run that copies two batches -/
 example :
     let st := run cfgNow (init 1 (fun _ => true) (fun _ => prov0) (fun _ => true) false)
